@@ -26,3 +26,5 @@ import LexVerif.Model.Dragonbox
 import LexVerif.Model.Grisu
 import LexVerif.Model.WriteBinary
 import LexVerif.Model.Ops.WriteAlgos
+-- string→float algorithm models (fast path, Eisel–Lemire, Bellerophon, power-of-two) and their op handlers
+import LexVerif.Model.Ops.ParseAlgos
